@@ -1,6 +1,6 @@
 CONSTANTS
   Ttl1 = 4
-  Ttl2 = 1
+  Ttl2 = 2
   NL = 2
   SessTtl = 3
   MaxSess = 3
